@@ -188,9 +188,46 @@ func progs() []prog {
 	}
 }
 
+// manyHolders: n read locks on one key are held at once (counter widths: 2^8+1, 2^16+1 holders); one is
+// released, then a writer arrives: it must not get in before the other n-1 readers have left, and the
+// locker must keep its entry meanwhile.
+func manyHolders(m mkLocker, n int, pb [2]int) *mc.Scenario {
+	return &mc.Scenario{Name: fmt.Sprintf("%s/many-readers/n=%d", m.name, n), PB: pb, Horizon: 8*n + 1000, NoStateCache: true,
+		Main: func(w *mc.World) {
+			x := &world{l: m.mk(), readers: map[int]int{}, writers: map[int]int{}, events: map[string]bool{}, w: w}
+			const k = 5
+			x.active++
+			for i := 0; i < n; i++ {
+				x.l.rlock(k)
+				x.readers[k]++
+			}
+			x.readers[k]--
+			x.l.runlock(k)
+			if e := x.l.entries(); e != 1 {
+				w.Failf("%d readers still hold key %d but the locker retains %d entries for it", n-1, k, e)
+			}
+			w.Go("writer", func() { x.run("W[5]", step{write: true, keys: []int{k}}) })
+			vsync.Yield()
+			w.Touch()
+			for i := 0; i < n-1; i++ {
+				x.readers[k]--
+				x.l.runlock(k)
+			}
+			x.active--
+			w.Join()
+			w.Touch()
+			if e := x.l.entries(); e != 0 {
+				w.Failf("every lock was released but the locker retains %d per-key entr(ies)", e)
+			}
+		}}
+}
+
 func scenarios() []*mc.Scenario {
 	var scs []*mc.Scenario
 	for _, m := range lockers() {
+		if m.name == "KeyLocker" || m.name == "TKeyLocker" || m.name == "KeyLockerGrp/shards=2" || m.name == "TXHashKeyLockerGrp/shards=3" {
+			scs = append(scs, manyHolders(m, 257, [2]int{1, 1}), manyHolders(m, 65537, [2]int{0, 0}))
+		}
 		for _, p := range progs() {
 			if p.multi && !m.multi {
 				continue
